@@ -11,7 +11,9 @@ What is proved here is the *reason* concurrent calls return the single-threaded 
      (`decide` over the table the translator extracts from the current sources),
  T4  the access programs of the kernels (erode, convolve, label, cwatershed, labeled folds) touch only
      the call's arguments and its own arrays, so any family of calls with disjoint outputs is confined
-     and T1 applies to it; the erode / convolve / labeled-fold programs compute the models' values.
+     and T1 applies to it; the erode / convolve / labeled-fold / label programs compute the models' values;
+     the roles of every program stay inside the kernel's arity; a call that raises after any number of
+     kernel steps has written nothing outside its own arrays.
 Real data races inside the compiled C++ and CPython's own guarantees are runtime behaviour and are
 only validated (thread stress), see the evidence file.
 -/
@@ -19,6 +21,7 @@ import Mahotas.Proofs.C12
 import Mahotas.Proofs.C12Kernels
 import Mahotas.Proofs.C12Roles
 import Mahotas.Proofs.C12Exceptions
+import Mahotas.Proofs.C12Label
 import Mahotas.Generated.Statics
 namespace Mahotas.C12
 open Mahotas
@@ -216,8 +219,8 @@ base offsets, element values, border modes and fold functions:
 compiled thread program is `Step.Confined t` (writes `priv t`, reads `priv t` or `sharedRO`).
 The read set over-approximates where the C++ leaves a loop early (`erode`'s break at the dtype minimum).
 How the programs relate to the kernels' VALUES is a separate matter: see `C12_erode_program_computes_model`,
-`C12_convolve_program_computes_model`, `C12_labeled_fold_program_computes_model` (tied) and
-`C12_label_cwatershed_traces_partial` (sets only). -/
+`C12_convolve_program_computes_model`, `C12_labeled_fold_program_computes_model`,
+`C12_label_program_computes_model` (tied) and `C12_cwatershed_trace_partial` (sets only). -/
 theorem C12_kernel_confined (k : Kernel) (c : Call) (hne : c.outputs ≠ []) :
     (∀ s ∈ (k.call c).prog, s.Within c) ∧
     (∀ l ∈ writeSet (k.call c).prog, l.arr ∈ c.outputs) ∧
@@ -354,29 +357,48 @@ theorem C12_labeled_fold_program_computes_model (kcs : List KCall) (t : Nat) (f 
       some (solo (compile kcs) t m ((KLoc.mk aRes (j : Int)).toLoc (kcs.map (·.call)))) :=
   fold_solo_value kcs t f start maxlabel vA vL mA mL aA aL aRes aReg hk h1 h2 h3 h4 h5 m hA hL j hj
 
-/-- **C12-T4 (partial: label and cwatershed).** For the access traces of `label` (generated along the run of
-`C03.scanPixel`/`C03.find`/`C03.join`/`C03.compress`/`C03.renumber`: the union-find parents are read and
-written in the call's own `labeled` buffer) and of `cwatershed` (generated along the run of
-`C04.modelInit`/`C04.extractMin`/`C04.modelVisit`: result, `status`, priority queue, `lines`, neighbour
-table), for every input and every footprint with an owned array: the write set lies in the call's owned
-arrays and the read set in its argument and owned arrays.
-MISSING: these two programs are *trace replays* — a write step stores the value the model stored, it does
-not recompute it from the values read — so their solo run is NOT proved to leave `C03.labelModel` /
-`C04.cwatershedModel` in the output locations; the offsets are not proved to lie inside the buffers
-(union-find parents `< N`, `npos < N`: C03/C04/C10 territory), and the roles are not proved to stay within
-`Kernel.arity`. Only the read/write SETS at array granularity are proved. -/
-theorem C12_label_cwatershed_traces_partial (c : Call) (hne : c.outputs ≠ []) :
-    (∀ (md : Mode) (shape : List Nat) (data : List Int) (vBc : C08.View) (bc : Array Int),
-      let p := ((Kernel.label md shape data vBc bc).call c).prog
-      (∀ l ∈ writeSet p, l.arr ∈ c.outputs) ∧ (∀ l ∈ readSet p, l.arr ∈ c.inputs ∨ l.arr ∈ c.outputs)) ∧
-    (∀ (vS vM vBc : C08.View) (surf markers : Img Int) (bc : Array Int),
-      let p := ((Kernel.cwatershed vS vM vBc surf markers bc).call c).prog
-      (∀ l ∈ writeSet p, l.arr ∈ c.outputs) ∧ (∀ l ∈ readSet p, l.arr ∈ c.inputs ∨ l.arr ∈ c.outputs)) := by
-  refine ⟨fun md shape data vBc bc => ?_, fun vS vM vBc surf markers bc => ?_⟩
-  · have h := C12_kernel_confined (Kernel.label md shape data vBc bc) c hne
-    exact ⟨h.2.1, h.2.2.1⟩
-  · have h := C12_kernel_confined (Kernel.cwatershed vS vM vBc surf markers bc) c hne
-    exact ⟨h.2.1, h.2.2.1⟩
+/-- **C12-T4 (tie: the label program computes `C03.labelModel`).** Let call number `t` of ANY family of calls be
+`label` (any border mode, shape, structuring element) on arrays `[aBc]` → `[aL, aF, aReg, aSeen]` (the `labeled` buffer,
+the filter copy, the registers, the `seen` map; `aL` distinct from the other three, registers distinct from `seen`). The
+access program is a REAL step program: the addresses are generated along the run of the union-find model (`find` follows
+the parent pointers, so they are data dependent, as in `labeled_foldl`), but every stored value is computed by the step
+from the values it reads — `data[i] = data[i] ? i : -1`; `find` loads `data[i]`, returns the root through the register
+and stores the register on the way back; `join` stores the register at the first root; the renumbering loop does
+`data[i] = seen[val]` or `data[i] = next; seen[val] = next; ++next`. If the initial memory holds `data` in the `labeled`
+buffer, then after the SOLO run of the compiled program element `j` of that buffer is exactly
+`(C03.labelModel mode shape data bshape bc).1[j]` — the model the driver runs (`c03 kind=label`, proved equal to the
+connected-component specification in C03) — and the `next` register holds the returned count plus one. With
+`C12_concurrent_kernels_independent` the same labels are there after every complete interleaving with any other calls that
+have disjoint outputs. (No well-formedness of the parent forest is assumed: the simulation holds for every input, using
+only that every parent entry is `-1` or an index below `N`, which the program itself maintains.) -/
+theorem C12_label_program_computes_model (kcs : List KCall) (t : Nat) (md : Mode) (shape : List Nat)
+    (data : List Int) (vBc : C08.View) (bc : Array Int) (aBc aL aF aReg aSeen : Nat)
+    (hk : kcs[t]? = some ((Kernel.label md shape data vBc bc).call ⟨[aBc], [aL, aF, aReg, aSeen]⟩))
+    (hLF : aL ≠ aF) (hLR : aL ≠ aReg) (hLS : aL ≠ aSeen) (hRS : aReg ≠ aSeen) (m : Mem)
+    (hM : ∀ j, j < data.length → m ((KLoc.mk aL (j : Int)).toLoc (kcs.map (·.call))) = data.getD j 0) :
+    (∀ j, j < data.length →
+      solo (compile kcs) t m ((KLoc.mk aL (j : Int)).toLoc (kcs.map (·.call))) =
+        (C03.labelModel md shape data vBc.shape bc).1.getD j 0) ∧
+    solo (compile kcs) t m ((KLoc.mk aReg 1).toLoc (kcs.map (·.call))) =
+      (C03.labelModel md shape data vBc.shape bc).2 + 1 :=
+  label_solo_value kcs t md shape data vBc bc aBc aL aF aReg aSeen hk hLF hLR hLS hRS m hM
+
+/-- **C12-T4 (partial: cwatershed).** For the access trace of `cwatershed` (generated along the run of
+`C04.modelInit`/`C04.extractMin`/`C04.modelVisit`: result, `status`, priority queue, `lines`, neighbour table), for every
+input and every footprint with an owned array: the write set lies in the call's owned arrays and the read set in its
+argument and owned arrays.
+MISSING: this program is a *trace replay* — the steps that store `status`, `lines` and the queue cells store the value the
+model stored, they do not recompute it from the values read — so its solo run is NOT proved to leave
+`C04.cwatershedModel` in the output locations, and the offsets are not proved to lie inside the buffers (`npos < N`:
+C04/C10 territory). Only the read/write SETS at array granularity (and, by `C12_kernel_roles_wellformed`, that the roles
+stay within `Kernel.arity`) are proved. (`label`, formerly in the same position, is now tied:
+`C12_label_program_computes_model`.) -/
+theorem C12_cwatershed_trace_partial (c : Call) (hne : c.outputs ≠ [])
+    (vS vM vBc : C08.View) (surf markers : Img Int) (bc : Array Int) :
+    let p := ((Kernel.cwatershed vS vM vBc surf markers bc).call c).prog
+    (∀ l ∈ writeSet p, l.arr ∈ c.outputs) ∧ (∀ l ∈ readSet p, l.arr ∈ c.inputs ∨ l.arr ∈ c.outputs) := by
+  have h := C12_kernel_confined (Kernel.cwatershed vS vM vBc surf markers bc) c hne
+  exact ⟨h.2.1, h.2.2.1⟩
 
 /-! ## T4, round 3 — well-formed roles, generic calls, exception paths -/
 
@@ -705,6 +727,25 @@ example :
     outOf calls (run (compile kcs') sched (init m0)).mem 20 = [4, 0, 0] ∧
     outOf calls (run (compile kcs') sched (init m0)).mem 30 = [2, 2, 6] ∧
     outOf calls (run (compile kcs') sched (init m0)).mem 10 = [5, 3, 7] := by
+  decide +kernel
+
+/-- round 3, label: 2×2 image `[1,1,0,1]` with the 3×3 cross: the solo run of the step program leaves the labels
+`[1,1,0,1]`… of `C03.labelModel` (one component: pixels 0,1,3 are 4-connected through pixel 1) in array 6 and
+`count + 1` in the `next` register -/
+example :
+    let vB : C08.View := { base := 0, shape := [3, 3], strides := [3, 1] }
+    let bc : Array Int := #[0, 1, 0, 1, 1, 1, 0, 1, 0]
+    let kl : Kernel := .label .constant [2, 2] [1, 1, 0, 1] vB bc
+    let cl : Call := ⟨[5], [6, 7, 8, 9]⟩
+    let kcs := [kl.call cl]
+    let m0 : Mem := memOf [cl] [(⟨6, 0⟩, 1), (⟨6, 1⟩, 1), (⟨6, 2⟩, 0), (⟨6, 3⟩, 1)]
+    (List.range 4).map (fun (j : Nat) => solo (compile kcs) 0 m0 ((KLoc.mk 6 (j : Int)).toLoc [cl])) = [1, 1, 0, 1] ∧
+    (C03.labelModel .constant [2, 2] [1, 1, 0, 1] [3, 3] bc).1 = [1, 1, 0, 1] ∧
+    solo (compile kcs) 0 m0 ((KLoc.mk 8 1).toLoc [cl]) = 2 ∧
+    let kl2 : Kernel := .label .constant [2, 2] [1, 0, 0, 1] vB bc
+    let m1 : Mem := memOf [cl] [(⟨6, 0⟩, 1), (⟨6, 1⟩, 0), (⟨6, 2⟩, 0), (⟨6, 3⟩, 1)]
+    (List.range 4).map (fun (j : Nat) => solo (compile [kl2.call cl]) 0 m1 ((KLoc.mk 6 (j : Int)).toLoc [cl])) =
+      [1, 0, 0, 2] := by
   decide +kernel
 
 end Mahotas.C12.Examples
